@@ -91,6 +91,21 @@ func (i *IPPool) DeallocIP(seid uint64) error {
 	return nil
 }
 
+// releaseIfAllocated deallocates the IP of the session, if it has one.
+func (i *IPPool) releaseIfAllocated(seid uint64) {
+	i.mu.Lock()
+	defer i.mu.Unlock()
+
+	ip, ok := i.inventory[seid]
+	if !ok {
+		return
+	}
+
+	delete(i.inventory, seid)
+	i.freePool = append(i.freePool, ip)
+	logger.PfcpLog.Debugln("deallocated session", seid, "IP", ip)
+}
+
 func (i *IPPool) String() string {
 	i.mu.Lock()
 	defer i.mu.Unlock()
